@@ -315,7 +315,9 @@ Verdict run_sched_case(const Case &c, SchedProp which)
   g_last_trace_valid = false;
   if (which == SP_C04 && c.has("rderr"))
     pc.in_fail_at = (long)c.geti("rderr"); // an unreadable stretch of the input: the operation may fail, it must still return
-  std::string pre = which == SP_C04 ? c.get("pre", "") : "";
+  if (which == SP_C04 && c.has("wrerr"))
+    pc.out_fail_at = (long)c.geti("wrerr"); // the output device fills up: the operation may fail, it must still return
+  std::string pre = c.get("pre", ""); // an earlier operation in the same process (all three properties)
   int preT = (int)c.geti("preT");
   auto job = [&]() -> bytes {
     if (!pre.empty())
@@ -404,6 +406,8 @@ Verdict run_sched_case(const Case &c, SchedProp which)
     v.classes.push_back("after_earlier_op=" + pre);
   if (pc.in_fail_at >= 0)
     v.classes.push_back("input_read_error_injected");
+  if (pc.out_fail_at >= 0)
+    v.classes.push_back("output_write_error_injected");
   {
     // distinct by (config, resolved decision trace)
     std::string t;
@@ -419,6 +423,7 @@ Verdict run_sched_case(const Case &c, SchedProp which)
     id.set("spur", std::to_string(o.sched.spurious));
     id.set("pre", pre);
     id.seti("rderr", pc.in_fail_at);
+    id.seti("wrerr", pc.out_fail_at);
     v.distinct = fnv64(id.text());
   }
   if (which == SP_C04)
@@ -649,10 +654,18 @@ Case gen_sched_case(SchedProp which)
     long at = g::coin(50) ? g::range(0, total + 1) : (op == "enc" ? 0 : 48 + 20 * T) + chunk * g::range(0, q + 2) + g::oneof<long>({-1, 0, 1, 16});
     c.seti("rderr", at < 0 ? 0 : at);
   }
-  if (which == SP_C04 && wapi::has_scheduler() && g::coin(20))
+  else if (which == SP_C04 && wapi::has_scheduler() && (op == "enc" || op == "dec") && g::coin(10))
+  {
+    // the output device fills up after a generated number of bytes (header, chunk boundaries, anywhere)
+    long total = (long)len + 16 + (op == "enc" ? 48 + 20 * T : 0);
+    long at = g::coin(50) ? g::range(0, total + 1) : (op == "enc" ? 48 + 20 * T : 0) + chunk * g::range(0, q + 2) + g::oneof<long>({-1, 0, 1, 16});
+    c.seti("wrerr", at < 0 ? 0 : at);
+    c.seti("outbuf", g::oneof<long>({0, 1, 1, 2})); // unbuffered / small stdio buffers let fwrite see the error
+  }
+  if (wapi::has_scheduler() && g::coin(which == SP_C04 ? 20 : 12))
   {
     c.set("pre", g::oneof<std::string>({"rejdec", "rejver", "garbage", "enc", "dec"}));
-    c.seti("preT", g::coin(50) ? T : g::range(1, 6));
+    c.seti("preT", g::coin(65) ? T : g::range(1, 6));
   }
   return c;
 }
